@@ -36,7 +36,7 @@ func hC14Build(n1, n2 string) *hMod {
 	return &hMod{m: m, f: f, b: b, i1: i1, i2: i2, named: named}
 }
 
-const hC14Edits = 10
+const hC14Edits = 12
 
 // hC14Edit applies edit k.  Edits 0-5 keep the numbers of already numbered
 // values; 6-9 shift them.
@@ -65,7 +65,28 @@ func hC14Edit(h *hMod, k int, nm string) {
 		h.i1.SetName(nm)
 	case 8: // make a named value unnamed
 		h.named.SetName("")
-	default: // insert an unnamed global before the unnamed one
+	case 10: // "strip all names" (clears the numbers a print stored), then insert an unnamed instruction first
+		for _, p := range h.f.Params {
+			p.SetName("")
+		}
+		for _, blk := range h.f.Blocks {
+			blk.SetName("")
+			for _, inst := range blk.Insts {
+				if n, ok := inst.(interface{ SetName(string) }); ok {
+					n.SetName("")
+				}
+			}
+		}
+		h.b.Insts = append([]Instruction{NewAdd(one, one)}, h.b.Insts...)
+	case 11: // clear the global numbers the same way, then insert an unnamed global first
+		for _, g := range h.m.Globals {
+			if g.IsUnnamed() {
+				g.SetName("")
+			}
+		}
+		g := NewGlobalDef("", constant.NewInt(types.I32, 9))
+		h.m.Globals = append([]*Global{g}, h.m.Globals...)
+	case 9: // insert an unnamed global before the unnamed one
 		g := NewGlobalDef("", constant.NewInt(types.I32, 9))
 		h.m.Globals = append([]*Global{g}, h.m.Globals...)
 	}
@@ -109,7 +130,7 @@ func VfC14_PrintAfterEdit() {
 	// known finding: an edit that shifts the LLVM numbers of values numbered by
 	// an earlier print makes the next print panic (stale IDs are indistinguishable
 	// from explicitly set ones)
-	vfKnown("C14.stale-ids-after-renumbering-edit", vfAnd(k >= 6, how <= 1))
+	vfKnown("C14.stale-ids-after-renumbering-edit", vfAnd(vfAnd(k >= 6, vfOr(k <= 8, k == 9)), how <= 1))
 	want := b.m.String()
 	got := a.m.String()
 	vfObserveStr("want", want)
